@@ -81,20 +81,7 @@ impl Scene for S {
         if strong_obs {
             oh.addr.push(Some(addr.clone()));
         }
-        let q: Vec<Op> = match self.obs {
-            Observer::Addr => vec![Op::Stopped(H::Addr(0)), Op::Running(H::Addr(0))],
-            Observer::Weak => vec![Op::Stopped(H::WAddr(0))],
-            Observer::CloneAtQuery => vec![Op::Clone(H::Addr(0)), Op::Stopped(H::Addr(1)), Op::Running(H::Addr(1)), Op::Drop(H::Addr(1))],
-            Observer::AwaitedByRef => vec![Op::Stopped(H::Addr(0)), Op::Running(H::Addr(0)), Op::AwaitRef(H::Addr(0))],
-        };
-        let mut o_ops = q.clone();
-        o_ops.push(Op::Sleep(10));
-        // after the sleep everything has settled: the late queries
-        match self.obs {
-            Observer::CloneAtQuery => o_ops.extend([Op::Clone(H::Addr(0)), Op::Stopped(H::Addr(2)), Op::Running(H::Addr(2))]),
-            Observer::AwaitedByRef => o_ops.extend([Op::Stopped(H::Addr(0)), Op::Running(H::Addr(0))]),
-            _ => o_ops.extend(q),
-        }
+        let o_ops = self.observer_ops();
         // awaiter
         let a_ops = match self.awaiting {
             Awaiting::Nobody => vec![],
@@ -167,13 +154,110 @@ impl Scene for S {
 }
 
 impl S {
-    fn is_running_query(&self, opi: u16) -> bool {
-        match self.obs {
-            Observer::Addr => matches!(opi, 1 | 4),
-            Observer::Weak => false,
-            Observer::CloneAtQuery => matches!(opi, 2 | 7),
-            Observer::AwaitedByRef => matches!(opi, 1 | 5),
+    /// three rounds of queries: at once, after a yield, and after everything has settled
+    fn observer_ops(&self) -> Vec<Op> {
+        let mut ops = vec![];
+        let mut next_clone = 1u8;
+        for round in 0..3 {
+            match self.obs {
+                Observer::Addr => ops.extend([Op::Stopped(H::Addr(0)), Op::Running(H::Addr(0))]),
+                Observer::Weak => ops.push(Op::Stopped(H::WAddr(0))),
+                Observer::CloneAtQuery => {
+                    ops.extend([Op::Clone(H::Addr(0)), Op::Stopped(H::Addr(next_clone)), Op::Running(H::Addr(next_clone))]);
+                    next_clone += 1;
+                }
+                Observer::AwaitedByRef => {
+                    ops.extend([Op::Stopped(H::Addr(0)), Op::Running(H::Addr(0))]);
+                    if round == 1 {
+                        ops.push(Op::AwaitRef(H::Addr(0)));
+                    }
+                }
+            }
+            match round {
+                0 => ops.push(Op::Yield),
+                1 => ops.push(Op::Sleep(10)),
+                _ => {}
+            }
         }
+        ops
+    }
+
+    fn is_running_query(&self, opi: u16) -> bool {
+        matches!(self.observer_ops().get(opi as usize), Some(Op::Running(_)))
+    }
+}
+
+/// The dependants: a registered service terminates (any cause) and nobody ever awaits it;
+/// afterwards the registry must treat it as gone.
+struct Reg {
+    cause: Cause,
+}
+
+impl Scene for Reg {
+    fn roles(&self) -> Vec<RoleCfg> {
+        let mut r = RoleCfg::default();
+        match self.cause {
+            Cause::HandlerPanic => r.work.push((99, Work { panic: true, ..Work::default() })),
+            Cause::TimeoutFail => r.work.push((99, Work { sleep: 5, ..Work::default() })),
+            Cause::StartErr => r.started.push(StartBeh::Err),
+            Cause::StartPanic => r.started.push(StartBeh::Panic),
+            Cause::StoppedPanic => r.stopped_panic = true,
+            _ => {}
+        }
+        vec![r, RoleCfg::default(), RoleCfg::default(), RoleCfg::default(), RoleCfg::default()]
+    }
+    fn pre(&self) {
+        use futures::FutureExt as _;
+        let _ = hannibal::Addr::<crate::world::Probe<0>>::unregister().now_or_never();
+    }
+    fn setup(&self, exec: &Exec) {
+        use hannibal::prelude::*;
+        crate::world::W.with(|w| w.borrow_mut().default_role[0] = 4);
+        let cfg = SpawnCfg {
+            mailbox: Mailbox::U,
+            strat: Strat::Default,
+            timeout: if self.cause == Cause::TimeoutFail { Some((2, true)) } else { None },
+        };
+        let addr = spawn_probe(0, cfg).detach();
+        let _ = crate::scenes::block_inline(addr.clone().register());
+        let t_ops = match self.cause {
+            Cause::Stop | Cause::StoppedPanic | Cause::Cancel(_) => vec![Op::Stop(H::Addr(0))],
+            Cause::DropAll => vec![],
+            Cause::CtxStop => vec![Op::Cmd(H::Addr(0), 2, Action::Stop)],
+            Cause::HandlerPanic | Cause::TimeoutFail => vec![Op::Send(H::Addr(0), 99)],
+            Cause::StartErr | Cause::StartPanic => vec![],
+        };
+        exec.spawn_client(0, run_client(0, Handles::with_addr(addr), t_ops));
+        exec.spawn_client(6, crate::props::c06::registry_client(6));
+    }
+    fn check(&self, t: &Trace) -> Vec<Violation> {
+        let an = crate::trace::An::new(t.log);
+        let mut out = vec![];
+        let ck = format!("{:?}", self.cause).split('(').next().unwrap_or("").to_string();
+        // with DropAll the registry itself keeps the service alive: nothing to check then
+        let terminated = an.task_end(0).is_some();
+        if !terminated {
+            return out;
+        }
+        crate::check::oblige("dependants-react");
+        let r = |i: u16| an.op(6, i).and_then(|o| o.res);
+        if let Some(res) = r(1) {
+            if !matches!(res, Res::Reg { present: false, .. }) {
+                out.push(Violation { clause: "dependants-react", key: format!("C14/try_from_registry-returns-dead/cause={ck}"), detail: format!("try_from_registry after an un-awaited termination returned {res:?}") });
+            }
+        }
+        if let Some(res) = r(2) {
+            if res != Res::OptBool(Some(false)) {
+                out.push(Violation { clause: "dependants-react", key: format!("C14/already_running-wrong/cause={ck}"), detail: format!("already_running after an un-awaited termination returned {res:?}") });
+            }
+        }
+        if let Some(res) = r(3) {
+            let fresh = an.enters.iter().find(|e| e.a == 4 && e.cb == crate::world::Cb::Started).map(|e| e.inst);
+            if !matches!(res, Res::Reg { present: true, ident: Some(i) } if Some(i) == fresh) {
+                out.push(Violation { clause: "dependants-react", key: format!("C14/no-respawn/cause={ck}"), detail: format!("from_registry after an un-awaited termination returned {res:?} (fresh instance: {fresh:?})") });
+            }
+        }
+        out
     }
 }
 
@@ -195,6 +279,14 @@ fn cases(tier: Tier) -> Vec<Case> {
     }
     let mailboxes: &[Mailbox] = if tier == Tier::Quick { &[Mailbox::U] } else { &[Mailbox::U, Mailbox::B(0), Mailbox::B(1)] };
     for &cause in &causes {
+        if cause != Cause::DropAll {
+            v.push(Case {
+                desc: format!("dependants cause={cause:?}"),
+                exec: ExecCfg { horizon: 30, cancel: if let Cause::Cancel(j) = cause { Some((0, j)) } else { None }, ..ExecCfg::default() },
+                bound: None,
+                scene: Box::new(Reg { cause }),
+            });
+        }
         for awaiting in [Awaiting::Nobody, Awaiting::Await, Awaiting::PollOnce] {
             for obs in [Observer::Addr, Observer::Weak, Observer::CloneAtQuery, Observer::AwaitedByRef] {
                 if cause == Cause::DropAll && (obs != Observer::Weak || awaiting == Awaiting::Await) {
@@ -222,7 +314,7 @@ pub fn property() -> Property {
     Property {
         id: "C14",
         cases,
-        clauses: &["truthful-after-termination", "truthful-before-termination"],
+        clauses: &["truthful-after-termination", "truthful-before-termination", "dependants-react"],
         full_rerun_check: true,
         assumptions: &["termination = the step in which the actor task ends (its stop notifier has fired or been dropped by then)"],
     }
